@@ -7,6 +7,7 @@ package main
 import (
 	"bytes"
 	"fmt"
+	"os"
 	"regexp"
 	"sort"
 	"strconv"
@@ -1473,15 +1474,18 @@ func main() {
 	for i := c.Count(1500, 30000); i > 0; i-- {
 		emitBd(c, "bd-malformed", g.burndownMalformed())
 	}
+	// C17_SKIP_FINDINGS=1 leaves out the two streams below (used while testing mutants, so that the two open
+	// findings about the unchanged code do not hide what a mutant breaks)
+	skipFindings := os.Getenv("C17_SKIP_FINDINGS") == "1"
 	// results as BurndownAnalysis.Finalize makes them with a people dictionary read from a file: the list of
 	// names ends with the pseudo-developer "<unmatched>" and is one longer than PeopleHistories
-	for i := c.Count(300, 5000); i > 0; i-- {
+	for i := c.Count(300, 5000); i > 0 && !skipFindings; i-- {
 		r := g.burndown(false)
 		r.names = append(r.names, "<unmatched>")
 		emitBd(c, "bd-loaded-dict", r)
 	}
 	// ... and for a file that exists only on another head: a history without an ownership table
-	for i := c.Count(300, 5000); i > 0; i-- {
+	for i := c.Count(300, 5000); i > 0 && !skipFindings; i-- {
 		r := g.burndown(false)
 		if len(r.own) > 0 {
 			k := c.Rng.Intn(len(r.own))
